@@ -123,7 +123,7 @@ std::string prop_generate(Tape & t, int size) {
             case 2: {   // user data
                 Op o; o.op = "user";
                 o.meta = (int) t.pick(std::vector<int>{0, 1, 0x7ff, 0xfff, 0x1000, 0xffff, 0x1234, 5});
-                o.stor = (int) t.weighted({0, 6, 3, 3, 1});   // 1 binary, 2 string, 3 json, 4 invalid (0 is reserved for the writer itself)
+                o.stor = (int) t.weighted({1, 8, 4, 4, 1});   // 0 INVALID (the writer accepts it as an empty marker; the reader must skip it), 1 binary, 2 string, 3 json, 4 invalid
                 bool text = (o.stor == 2 || o.stor == 3);
                 o.data = gen_payload(t, big_budget > 0 ? size : 10, text);
                 if (o.data.gen && o.data.n > 70000) --big_budget;
